@@ -1,7 +1,9 @@
 ENGINES = [
-    {"name": "kvc", "path": "cv/kvc", "serves_properties": ["C08", "C09"],
+    {"name": "kvc", "path": "cv/kvc", "serves_properties": ["C08", "C09", "C19"],
      "kind_free_text": "verification-condition generator over the AST of the working tree's source (normalised .pyx / .py), sidecar contracts, z3 + cvc5 discharge, counter-model replay on the real build"},
 ]
+ENGINES.append({"name": "rtc", "path": "cv/rtc", "serves_properties": ["C06", "C07", "C15"],
+                "kind_free_text": "run-time contracts (requires/old/ensures with named clauses) attached to the real functions of a scratch copy of the working tree, driven over exhaustively enumerated small scopes; the bounded stand-in, never counted as proved"})
 NOTES = "Contract-based deductive verification; see DESIGN.md. Exit codes: 0 held, 1 VIOLATION, 2 undecided (solver instability on an unchanged obligation), 3 checker broken."
 NOT_APPLICABLE = {}
 CHECKS = {
@@ -16,5 +18,29 @@ CHECKS = {
         technique="deductive verification: in-bounds / no-overflow VC per memoryview subscript and C-int expression, z3",
         text="Under the length limit only (no sortedness assumed), every typed-memoryview subscript of the three two-way kernels is proved in bounds and every C int expression free of overflow, for all inputs including empty operands; counter-models are replayed on a bounds-checked rebuild of the same .pyx.",
         note="Trusted: a memoryview of shape[0]=n addresses n allocated elements; Cython codegen, gcc; normaliser; solver soundness. Nothing is run under ASan: safety is a theorem about the source text.",
+    ),
+    "C19": dict(
+        engine="kvc", category="proof", design_ref="DESIGN.md §2, §6 C19",
+        technique="deductive verification: path-wise VCs over the real fit_dtype / IndxIO.format / IndxIO.dtype AST, linear integer arithmetic, z3",
+        text="Every syntactic path of fit_dtype (and of IndxIO.format / IndxIO.dtype) is executed symbolically on the working tree's AST; for each feasible path the postcondition instances (contains min and max, signedness, no narrower dtype of the same signedness fits; word size matches) are discharged for all integer arguments in the precondition. Counter-models are replayed on the real function against numpy.iinfo.",
+        note="Trusted: numpy.iinfo as range oracle, z3, the path executor (cross-checked against CPython on the 2**k, 2**k+-1 grid every run). Whether callers pass the true extremes is checked under C01/C06/C11.",
+    ),
+    "C06": dict(
+        engine="rtc", category="exploration", design_ref="DESIGN.md §4, §6 C06",
+        technique="run-time contracts on the real operations over an exhaustively enumerated bounded scope (bounded stand-in for a deductive proof; NumPy-heavy bodies are outside the VC generator)",
+        text="One contract per index operation with the postcondition over the whole dense view plus frame clauses, evaluated on every well-formed state in scope (not only reachable ones) and every argument in scope; histories follow by induction over the contracts. Bounded in input size, not a proof.",
+        note="Holds only on the enumerated scope (1-D N<=3 over 4 values x 5 commons, 2-D N<=2 x C<=2, 3-D (N,2,2) for slicing; all ordered pairs at N<=2; thorough tier larger). Spec layer (view/wf/mk) is trusted and independent of the code under test.",
+    ),
+    "C07": dict(
+        engine="rtc", category="exploration", design_ref="DESIGN.md §4, §6 C07",
+        technique="run-time contracts: `ensures wf(result)` (one clause per conjunct) on every operation over an exhaustive bounded scope",
+        text="Each conjunct of well-formedness (strictly increasing uint32 row ids below the row count, coordinates in shape, exclusivity, nothing under common, no empty entry) is a named postcondition of every operation, plus validate(True) and the observers (abscissae, sparsity, inferred cube shape). Bounded in input size.",
+        note="Same enumeration as C06; bounded scope; wf predicate is the spec layer's, stronger than the library validator.",
+    ),
+    "C15": dict(
+        engine="rtc", category="exploration", design_ref="DESIGN.md §4, §6 C15",
+        technique="run-time contracts: mode clause on every library-chosen normalisation; ==/!= laws on all ordered pairs of states in scope",
+        text="`count(view, common) == max count` after shift_common(), append, filtered, collapsed; (a == b) iff shape, common and dense content coincide, != is its negation and never raises, reflexive/symmetric, False against non-indexes, results of operations equal their directly built twins. Bounded in input size.",
+        note="Bounded scope (all ordered pairs of 1-D states N<=2 and 2-D states N<=2,C<=2 in quick tier).",
     ),
 }
